@@ -12,3 +12,6 @@ import NxsModel.Props.C19
 import NxsModel.Props.C03
 import NxsModel.Handshake
 import NxsModel.Config
+import NxsModel.Props.C07
+import NxsModel.Props.C11
+import NxsModel.Props.C10
